@@ -4,6 +4,7 @@
 package c08
 
 import (
+	"bytes"
 	"errors"
 	"fmt"
 	"io"
@@ -34,6 +35,9 @@ type ParseCase struct {
 	Name        string `json:"name"`
 	BufCap      int    `json:"buf_cap"` // -1: nil buffer
 	Dest        int    `json:"dest"`    // 0 FuncSet, 1 recording HandleSet, 2 DefaultStorage
+	// Splits (Dest 2): byte positions at which the data is cut into separate
+	// readers for NewDefaultStorage(readers...).
+	Splits []int `json:"splits,omitempty"`
 }
 
 func (c ParseCase) data() []byte {
@@ -286,6 +290,46 @@ func checkParse(c ParseCase) error {
 		if err := m.compare(st); err != nil {
 			return fmt.Errorf("DefaultStorage filled by Parse: %w", err)
 		}
+		// The same bytes handed to NewDefaultStorage as several readers cut
+		// at arbitrary positions: every reader is a source of its own, lines
+		// do not continue across readers.
+		if len(c.Splits) > 0 {
+			var parts [][]byte
+			prev := 0
+			for _, sp := range c.Splits {
+				sp = min(max(sp, prev), len(data))
+				parts = append(parts, data[prev:sp])
+				prev = sp
+			}
+			parts = append(parts, data[prev:])
+			readers := make([]io.Reader, len(parts))
+			m2 := newStorageModel()
+			for i, part := range parts {
+				readers[i] = bytes.NewReader(part)
+				for _, e := range expected(part, "") {
+					if e.Kind == "add" {
+						m2.add(e.Addr, e.Names)
+					}
+				}
+			}
+			st2, err := hostsfile.NewDefaultStorage(readers...)
+			if err != nil {
+				return fmt.Errorf("NewDefaultStorage with %d readers returned %v", len(readers), err)
+			}
+			var splitNames []string
+			for _, ns := range m2.names {
+				splitNames = append(splitNames, ns...)
+			}
+			if !foldingsAgree(splitNames) {
+				// Cutting a line can turn an ill-formed line into a well-formed
+				// prefix with names that the unsplit data did not contribute;
+				// the same restriction as for the whole data applies to them.
+				vp.Class("parse:split-skipped(names on which ASCII and Unicode case folding disagree)")
+			} else if err = m2.compare(st2); err != nil {
+				return fmt.Errorf("NewDefaultStorage with %d readers cut at %v: %w", len(readers), c.Splits, err)
+			}
+			vp.Class("parse:NewDefaultStorage-with-several-readers")
+		}
 	}
 	if fr.pos != len(data) {
 		return fmt.Errorf("Parse stopped after %d of %d bytes", fr.pos, len(data))
@@ -383,6 +427,10 @@ var parseProp = vp.Register(vp.Prop[ParseCase]{
 		}
 		c.BufCap = rapid.SampledFrom([]int{-1, 0, 1, 16, 4096}).Draw(t, "buf")
 		c.Dest = rapid.IntRange(0, 2).Draw(t, "dest")
+		if c.Dest == 2 && rapid.Bool().Draw(t, "split") {
+			c.Splits = rapid.SliceOfN(rapid.IntRange(0, 300), 1, 3).Draw(t, "splits")
+			slices.Sort(c.Splits)
+		}
 		return c
 	},
 	Check: checkParse,
